@@ -192,6 +192,25 @@ func runC13(r *Run) {
 		return true, l.HasCall(func(g CallInfo) bool { return g.Name == "GetSupply" }) && l.HasCall(func(g CallInfo) bool { return g.Name == "TotalBondedTokens" }) && rr.HasCall(func(g CallInfo) bool { return g.Name == "GetMaxSupply" })
 	})
 	r.Check(len(capEdges) > 0, "R2", fnID(fn)+"#cap-comparison", where, "supply + mint is compared with the maximum supply", "the comparison of supply + block mint with the maximum supply is gone")
+	// the comparison is made before every mint: no path reaches the mint without having evaluated it
+	{
+		isCap := func(in ssa.Instruction) bool {
+			c, ok := in.(*ssa.Call)
+			if !ok || callInfo(c).Name != "GT" {
+				return false
+			}
+			a := callArgs(c)
+			if len(a) != 2 {
+				return false
+			}
+			l, rr := backSlice(a[0]), backSlice(a[1])
+			return l.HasCall(func(g CallInfo) bool { return g.Name == "GetSupply" }) && rr.HasCall(func(g CallInfo) bool { return g.Name == "GetMaxSupply" })
+		}
+		isMint := func(in ssa.Instruction) bool { return in == ssa.Instruction(mintCall) }
+		w := PathQuery{Fn: fn, Block: isCap, Target: isMint}.Search()
+		r.Check(w == nil, "R2", fnID(fn)+"#cap-compared-before-every-mint", where, "every path to the mint evaluates supply + mint > max supply first",
+			"a path reaches MintCoins without the comparison of supply + block mint with the maximum supply having been evaluated (a short-circuit or early branch around it): for that configuration — e.g. a zero or unset maximum — minting is unbounded", P.witness(w)...)
+	}
 	offOK, nOff := true, 0
 	eachInstr(fn, func(in ssa.Instruction) {
 		st, ok := in.(*ssa.Store)
